@@ -31,3 +31,9 @@ Theorem C04_threefry_matches_jax :
   (split_i (0%N, 7%N) 0%N, split_i (0%N, 7%N) 2%N) = ((3625411723%N, 1954958720%N), (966301609%N, 1948237315%N)).
 Proof. split; [exact fold_in_matches_jax | exact split_matches_jax]. Qed.
 Print Assumptions C04_threefry_matches_jax.
+
+(* ---- non-vacuity: concrete non-trivial programs and traces meeting the hypotheses above (proofs/GFIWitness.v) ---- *)
+From Proofs Require Import GFIWitness.
+Example C04_hypotheses_met : simulate ex_g ex_k ex_a = Ok ex_t /\ length (t_choices ex_t) = 7%nat.
+Proof. exact (conj ex_simulate ex_nontrivial). Qed.
+Print Assumptions C04_hypotheses_met.
